@@ -156,6 +156,9 @@ def routes_list(
                     )
 
             await reactor.processes.answer(service, routes_data)
+            # the data is not the acknowledgement: without a terminal `done` the helper waits for ever for the answer
+            # to `routes list` / `add` / `remove` when they succeed (only the failures were answered, with `error`)
+            await reactor.processes.answer_done(service)
         except Exception as e:
             error_msg = f'Failed to list routes: {type(e).__name__}: {str(e)}'
             self.log_exception(error_msg, e)
@@ -233,8 +236,10 @@ def routes_add(
             # Return single result or list
             if len(results) == 1:
                 await reactor.processes.answer(service, results[0])
+                await reactor.processes.answer_done(service)
             else:
                 await reactor.processes.answer(service, results)
+                await reactor.processes.answer_done(service)
 
         except ValueError as e:
             error_msg = f'Failed to parse route: {str(e)}'
@@ -297,6 +302,7 @@ def routes_remove(
                         'index': index_hex,
                     },
                 )
+                await reactor.processes.answer_done(service)
                 return
 
             # Remove by route specification
@@ -329,8 +335,10 @@ def routes_remove(
             # Return single result or list
             if len(results) == 1:
                 await reactor.processes.answer(service, results[0])
+                await reactor.processes.answer_done(service)
             else:
                 await reactor.processes.answer(service, results)
+                await reactor.processes.answer_done(service)
 
         except ValueError as e:
             error_msg = f'Failed to parse route: {str(e)}'
